@@ -22,7 +22,7 @@ from boltons.iterutils import split_iter, chunked_iter, windowed_iter, unique_it
 from boltons.funcutils import FunctionBuilder
 
 from .core import glom, T, STOP, SKIP, _MISSING, Path, TargetRegistry, Call, Spec, Pipe, S, bbrepr, format_invocation
-from .core import LAST_CHILD_SCOPE, NO_PYFRAME
+from .core import LAST_CHILD_SCOPE, NO_PYFRAME, arg_val
 from .matching import Check
 
 def _glom_lazily(target, spec, scope):
@@ -397,7 +397,10 @@ class First:
         self._first = Call(first, args=(T,), kwargs={'default': default, 'key': spec_glom})
 
     def glomit(self, target, scope):
-        return self._first.glomit(target, scope)
+        # (the key is evaluated as a child of this spec: an error in it is
+        # traced down to the key spec and the item it received)
+        return first(target, default=arg_val(target, self._default, scope),
+                     key=lambda t: scope[glom](t, self._spec, scope))
 
     def __repr__(self):
         cn = self.__class__.__name__
